@@ -17,6 +17,21 @@ Fixpoint skip_done (ls : list line) (d : nat) : option (list line) :=
 
 Definition flag_set (e : shenv) (f : bytes) : bool := match sh_get f e with [] => false | _ => true end.
 
+(* behind the matching closing brace of a function definition (definitions are not nested) *)
+Fixpoint skip_close (ls : list line) : option (list line) :=
+  match ls with
+  | [] => None
+  | LClose :: r => Some r
+  | _ :: r => skip_close r
+  end.
+
+Section Machine.
+(* what calling a function does: name, argument texts, environment -> environment afterwards and what was printed
+   (the function bodies are run by the machine itself, one level down: see call_of below); and the positional
+   parameters of the function body that is being run *)
+Variable call : bytes -> list bytes -> shenv -> option (shenv * bytes).
+Variable pos : list bytes.
+
 Fixpoint lrun (fuel : nat) (seek : bool) (e : shenv) (L : list (list line)) (ls : list line) : option (shenv * bytes) :=
   match fuel with
   | O => None
@@ -64,6 +79,15 @@ Fixpoint lrun (fuel : nat) (seek : bool) (e : shenv) (L : list (list line)) (ls 
                 | Some false => match L, skip_done r 0 with _ :: L', Some r' => lrun f false e L' r' | _, _ => None end
                 | None => None
                 end
+            | LFuncOpen _ => match skip_close r with Some r' => lrun f false e L r' | None => None end
+            | LLocalParam n i => lrun f false (sh_set n (nth (i - 1) pos []) e) L r
+            | LReturn => Some (e, [])
+            | LClose => Some (e, [])
+            | LCall name args =>
+                match call name (map (atom_text e) args) e with
+                | Some (e1, o1) => match lrun f false e1 L r with Some (e2, o2) => Some (e2, o1 ++ o2) | None => None end
+                | None => None
+                end
             | _ => match exec_out e l with
                    | Some (e1, o1) => match lrun f false e1 L r with Some (e2, o2) => Some (e2, o1 ++ o2) | None => None end
                    | None => None
@@ -84,7 +108,8 @@ Proof.
   - destruct l;
       try (destruct (exec_out e _) as [[e1 o1]|]; [|discriminate];
            destruct (lrun f false e1 L r) as [[e2 o2]|] eqn:E; [|discriminate]; rewrite (IH _ _ _ _ _ E f' Hle'); exact H);
-      try (exact (IH _ _ _ _ _ H f' Hle')).
+      try (exact (IH _ _ _ _ _ H f' Hle')); try exact H.
+    + destruct (skip_close r); [exact (IH _ _ _ _ _ H f' Hle')|discriminate].
     + destruct (is_if word).
       * destruct (cond_true e c) as [[|]|]; try discriminate; [exact (IH _ _ _ _ _ H f' Hle')|].
         destruct (skip_branch r 0); [exact (IH _ _ _ _ _ H f' Hle')|discriminate].
@@ -96,4 +121,7 @@ Proof.
     + destruct L as [|t L']; [discriminate|]. exact (IH _ _ _ _ _ H f' Hle').
     + destruct L as [|t L']; [discriminate|]. destruct (skip_done r 0); [exact (IH _ _ _ _ _ H f' Hle')|discriminate].
     + destruct L as [|t L']; [discriminate|]. exact (IH _ _ _ _ _ H f' Hle').
+    + destruct (call name (map (atom_text e) args) e) as [[e1 o1]|]; [|discriminate].
+      destruct (lrun f false e1 L r) as [[e2 o2]|] eqn:E; [|discriminate]. rewrite (IH _ _ _ _ _ E f' Hle'). exact H.
 Qed.
+End Machine.
